@@ -15,7 +15,7 @@ EXPLANATION = (
     "ArgMatches::default(). R11.4 name twins agree: Command::_build_subcommand (per parse) and "
     "Command::_build_bin_names_internal (build()) compute a subcommand's usage_name / bin_name from the parent's bin_name "
     "and its display_name from the parent's display_name, and _build_subcommand assigns usage_name and bin_name on every "
-    "path (never skipped for an already-built subcommand). NOT decided: equality of results across histories."
+    "path (never skipped for an already-built subcommand). R11.5 clones are faithful: every Clone impl of a clap_builder type is derive-generated, or (hand-written) builds the value field by field from clone()/copies of the same fields of self, or is in the reviewed list (ValueParser: re-boxes the inner parser through clone_any) — a clone that drops build-time state (e.g. the key cache while the Built flag is copied) parses differently from its original. NOT decided: equality of results across histories."
 )
 TRUSTED = ["rustc MIR", "clapfacts", "call graph with trait fan-out"]
 ASSUMPTIONS = ["user closures (value parsers, deferred commands) are deterministic"]
@@ -101,6 +101,33 @@ def run(ctx):
                   "Command::%s is written on the parse path outside the one-shot build (%s): a second parse of the same Command can behave differently" % (fld, sorted(fns)))
     res.floor("R11.2", "bodies reachable from try_get_matches_from_mut outside one-shot regions", len(bodies), 500)
     res.check(allowed & set(written) != set(), "R11.2", "census-nonempty", ent[0].where(), "per-parse writes found: %s" % sorted(written), "census found no per-parse writes (anchor drift)")
+    # &mut access to the definition on the parse path: only the build entry points (all idempotent through their guards, R11.1)
+    MUT_OK = r"Command::(_build_bin_names_internal|_build_recursive|_build_self|_build_subcommand|_do_parse|build|get_subcommands_mut|find_subcommand_mut|try_get_matches_from_mut)$|parser::Parser::new$"
+    DEF_TY = r"^&mut clap_builder::(builder::(command::Command|arg::Arg|arg_group::ArgGroup)|mkeymap::MKeyMap)$"
+    nm = 0
+    seen_mut = set()
+    for b in bodies:
+        for c in b.calls():
+            if not follow(b, c):
+                continue
+            for cb in fx.callee_bodies(c):
+                if cb.crate.name != "clap_builder" or cb.argc < 1 or not re.match(DEF_TY, cb.local_ty(1) or ""):
+                    continue
+                nm += 1
+                if re.search(MUT_OK, cb.q):
+                    seen_mut.add(cb.q)
+                    continue
+                res.violation("R11.2", "parse-path-mut|" + cb.q.split("::", 2)[-1], c.where(), "%s takes the definition by &mut and is called on the parse path outside the one-shot build (from %s): a second parse can see a changed definition" % (cb.q, b.q))
+        for i, j, s_ in b.stmts():
+            if s_["k"] != "assign" or isinstance(s_["place"], int):
+                continue
+            for el in s_["place"][1:]:
+                if isinstance(el, str) and el.startswith(".") and re.search(r"@clap_builder::(builder::(arg::Arg|arg_group::ArgGroup)|mkeymap::MKeyMap)$", el) and not has_bool(b, i, "F", r"Built"):
+                    if b.d.get("vis") == "Public" and (b.local_ty(1) or "").startswith("clap_builder::builder::"):
+                        continue
+                    res.violation("R11.2", "parse-path-write|%s" % el.split("@")[1].rsplit("::", 1)[1] + el.split("@")[0], "%s in %s" % (sp_str(s_["sp"]), b.q), "%s is written on the parse path outside the one-shot build" % el)
+    res.ok("R11.2", "parse-path-mut|census", ent[0].where(), "%d &mut-definition calls on the parse path, all build entry points: %s" % (nm, sorted(q.rsplit("::", 1)[1] for q in seen_mut)))
+    res.floor("R11.2", "&mut-definition calls on the parse path", nm, 10)
     bsc = fx.body(CMD + "_build_subcommand")
     dn = writes_field(bsc, "display_name")
     for i, s in dn:
@@ -168,3 +195,36 @@ def run(ctx):
         res.check(bool(ws) and not bad, "R11.4", "names-every-parse|" + fld, bsc.where(), "%s recomputed on every _build_subcommand of an existing subcommand" % fld,
                   "_build_subcommand can return the subcommand without (re)computing %s (%s): its names then depend on which calls happened before" % (fld, bad[:1]))
     res.check(bool(bsc.calls_to(r"Command::_build_self$")), "R11.4", "subcommand-built", bsc.where(), "the subcommand is built before use", "_build_subcommand no longer builds the subcommand")
+
+
+    # ---- R11.5 faithful clones
+    MANUAL_OK = {"clap_builder::builder::value_parser::ValueParser": "enum of parsers; Other(..) is re-boxed through AnyValueParser::clone_any"}
+    cb_ = fx.crate("clap_builder")
+    ncl = 0
+    for im in cb_.impls:
+        if not str(im.get("trait", "")).endswith("::Clone"):
+            continue
+        ncl += 1
+        ty = im["self_ty"]
+        if len(im["span"]) >= 6 and im["span"][5] == "Clone":
+            continue       # #[derive(Clone)]
+        base = ty.split("<")[0]
+        if base in MANUAL_OK:
+            res.audited("R11.5", "manual-clone|" + base, sp_str(im["span"]), MANUAL_OK[base])
+            continue
+        bodies_ = [b for b in cb_.bodies if b.q == "<%s as std::clone::Clone>::clone" % ty]
+        okf, why = False, "no clone body found"
+        for b in bodies_:
+            aggs = [s_ for i, j, s_ in b.stmts() if s_["k"] == "assign" and s_["place"] == 0 and s_["rv"]["k"] == "agg" and (s_["rv"].get("adt") or "").split("<")[0] == base]
+            if not aggs:
+                why = "result is not built field by field"
+                continue
+            okf = True
+            for s_ in aggs:
+                for fld, op in zip(s_["rv"].get("fields", []), s_["rv"].get("ops", [])):
+                    e = expr(b, op)
+                    if e not in ("clone(self.%s)" % fld, "self.%s" % fld):
+                        okf, why = False, "field `%s` of the clone is %s, not a clone of self.%s" % (fld, e[:60], fld)
+        res.check(okf, "R11.5", "manual-clone|" + base, sp_str(im["span"]), "hand-written Clone is field-wise", "hand-written Clone for %s is not a faithful copy: %s" % (base, why))
+    res.floor("R11.5", "Clone impls in clap_builder", ncl, 60)
+    res.ok("R11.5", "derived-clones", "clap_builder", "%d Clone impls inspected" % ncl)
